@@ -1303,7 +1303,21 @@ class System:
             # Else, the last added module wins
             self._remove(first)
             self.unprocessed_modules.remove(first)
+            self._forgetSubmodules(first)
+            if first.parent is None:
+                self.rootobjects.remove(first)
             self._addUnprocessedModule(dup)
+
+    def _forgetSubmodules(self, mod: _ModuleT) -> None:
+        """
+        The modules of a package that has been replaced by a package of 
+        the same name are not part of the system anymore: don't process them.
+        """
+        for sub in mod.contents.values():
+            if isinstance(sub, Module):
+                if sub in self.unprocessed_modules:
+                    self.unprocessed_modules.remove(sub)
+                self._forgetSubmodules(sub)
 
     def _introspectThing(self, thing: object, parent: CanContainImportsDocumentable, parentMod: _ModuleT) -> None:
         for k, v in thing.__dict__.items():
